@@ -6,6 +6,7 @@ mod apidrv;
 mod cachedrv;
 mod concdrv;
 mod crashdrv;
+mod damagedrv;
 mod fsm;
 mod imgdrv;
 mod layout;
@@ -74,6 +75,7 @@ fn main() {
         "stalechain" => crashdrv::stalechain_main(rest),
         "uringfault" => crashdrv::uringfault_main(rest),
         "apisurface" => apidrv::main(rest),
+        "damage" => damagedrv::main(rest),
         "clocksat" => seqdrv::clocksat(rest),
         "faultstory" => seqdrv::faultstory(rest),
         "inflightstory" => seqdrv::inflightstory(rest),
